@@ -124,7 +124,7 @@ def run(ctx):
     cfg = os.path.join(ctx.scratch, "tg.cfg")
     fout = os.path.join(ctx.scratch, "fields.json")
     with open(cfg, "w") as f:
-        f.write(f"SPECIFICATION Spec\nCONSTANTS\n  MaxT0 = 3\n  MaxDt = 4\n  MaxSpan = {span}\n"
+        f.write(f"SPECIFICATION Spec\nCONSTANTS\n  MaxT0 = 3\n  MaxDt = 4\n  MaxSpan = {span}\n  BigT0 = {{25, 100, 1000}}\n"
                 "INVARIANT CountsAgree\nINVARIANT StartsAtT0\nINVARIANT StepIsDt\nINVARIANT EndsAtFirstPointAtOrAfterT1\nINVARIANT Truncated\n")
     dot = os.path.join(ctx.scratch, "tg")
     r = tlc.run_tlc("TimeGrid", cfg, scratch=ctx.scratch, dump_dot=dot, env={"FIELDS_OUT": fout}, workers=8, timeout=900)
